@@ -266,7 +266,7 @@ pub fn profile() -> Profile {
 
 pub fn test(h: &History, st: &mut Stats) -> R {
     let mut mon = Robust::new();
-    let (_w, _out, r) = run_history(h, &mut [&mut mon]);
+    let (_w, _out, r) = run_history_mode(h, &mut [&mut mon], false);
     r?;
     st.count("peer_frames", mon.frames);
     if mon.hostile_after_connected > 0 {
